@@ -2,6 +2,7 @@ package sopx
 
 import (
 	"context"
+	"github.com/sharedcode/sop/encoding"
 	"time"
 
 	"github.com/sharedcode/sop"
@@ -327,6 +328,16 @@ type PLogDec struct {
 func (d *PLogDec) IsEnabled() bool { return d.Inner.IsEnabled() }
 func (d *PLogDec) Add(ctx context.Context, tid sop.UUID, payload []byte) error {
 	ev := &Event{Txn: d.Txn, Iface: "plog", Method: "Add", IDs: []int{d.R.Canon.ID(tid)}}
+	// the logged handle images (what priorityRollback / doPriorityRollbacks will write back), decoded the way
+	// fs.priorityLog.Get decodes them
+	var logged []sop.RegistryPayload[sop.Handle]
+	if encoding.DefaultMarshaler.Unmarshal(payload, &logged) == nil {
+		for _, x := range logged {
+			for _, h := range x.IDs {
+				ev.Handles = append(ev.Handles, d.R.Canon.Handle(x.RegistryTable, h))
+			}
+		}
+	}
 	a := d.R.begin(ev)
 	if a == Fail {
 		d.R.end(ev, ErrInjected)
